@@ -288,6 +288,21 @@ def treeStep (b : Backend) (doc : Val) : TreeOp → Val × String
   | .resolve p => (doc, resolveRStr (resolve doc p))
   | .write p v => let (d, r) := writeThrough doc p v; (d, writeRStr r)
 
+/-- the same step on the reference tree store (`assignSpec`, `deleteSpec`, `walk`, `writeSpec`) -/
+def specTreeStep (b : Backend) (doc : Val) : TreeOp → Val × String
+  | .assign p v =>
+    match assignSpec doc (tokens p) v with
+    | .ok (d, r) => (d, specAssignRStr (.ok (d, r)))
+    | .err k => (doc, s!"err({walkKindStr k})")
+    | .panic _ => (doc, "panic")
+  | .delete p => let (d, r) := deleteSpec b doc (tokens p); (d, someStr (r.map docStr))
+  | .resolve p => (doc, specWalkStr (walk doc (tokens p)))
+  | .write p v =>
+    match walk doc (tokens p) with
+    | .ok (l, _) => (doc.setAt l v, "ok")
+    | .err (_, k) => (doc, s!"err({walkKindStr k})")
+    | .panic _ => (doc, "panic")
+
 /-! ## ranges -/
 
 def parseBound (s : String) : Option Bound :=
@@ -301,6 +316,11 @@ def specRangeStr : Option (Nat × Nat) → String
   | some (a, b) => s!"some({a},{b})"
   | none => "none"
 
+/-- the view the token range denotes: the offsets of tokens `a` and `b` -/
+def specViewStr (p : Bytes) : Option (Nat × Nat) → String
+  | some (a, b) => s!"some({viewStr (off (tokens p) a, off (tokens p) b)})"
+  | none => "none"
+
 def getLine (p : Bytes) (range : String) : Option String :=
   let n := count p
   match range.splitOn "@" with
@@ -309,22 +329,22 @@ def getLine (p : Bytes) (range : String) : Option String :=
   | ["r", a, b] => do
     let a ← parseNatStr a
     let b ← parseNatStr b
-    pure s!"r={spanOptStr (getRange p a b)} spec_r={specRangeStr (rangeSpec n a b)}"
+    pure s!"r={spanOptStr (getRange p a b)} spec_r={specRangeStr (rangeSpec n a b)} spec_view={specViewStr p (rangeSpec n a b)}"
   | ["rf", a] => (parseNatStr a).map fun a =>
-      s!"r={spanOptStr (getRangeFrom p a)} spec_r={specRangeStr (rangeFromSpec n a)}"
+      s!"r={spanOptStr (getRangeFrom p a)} spec_r={specRangeStr (rangeFromSpec n a)} spec_view={specViewStr p (rangeFromSpec n a)}"
   | ["rt", b] => (parseNatStr b).map fun b =>
-      s!"r={spanOptStr (getRangeTo p b)} spec_r={specRangeStr (rangeToSpec n b)}"
+      s!"r={spanOptStr (getRangeTo p b)} spec_r={specRangeStr (rangeToSpec n b)} spec_view={specViewStr p (rangeToSpec n b)}"
   | ["ri", a, b] => do
     let a ← parseNatStr a
     let b ← parseNatStr b
-    pure s!"r={spanOptStr (getRangeIncl p a b)} spec_r={specRangeStr (rangeInclSpec n a b)}"
+    pure s!"r={spanOptStr (getRangeIncl p a b)} spec_r={specRangeStr (rangeInclSpec n a b)} spec_view={specViewStr p (rangeInclSpec n a b)}"
   | ["rti", b] => (parseNatStr b).map fun b =>
-      s!"r={spanOptStr (getRangeToIncl p b)} spec_r={specRangeStr (rangeToInclSpec n b)}"
-  | ["full"] => some s!"r={spanOptStr (getRangeFull p)} spec_r={specRangeStr (rangeFullSpec n)}"
+      s!"r={spanOptStr (getRangeToIncl p b)} spec_r={specRangeStr (rangeToInclSpec n b)} spec_view={specViewStr p (rangeToInclSpec n b)}"
+  | ["full"] => some s!"r={spanOptStr (getRangeFull p)} spec_r={specRangeStr (rangeFullSpec n)} spec_view={specViewStr p (rangeFullSpec n)}"
   | ["bb", lo, hi] => do
     let lo ← parseBound lo
     let hi ← parseBound hi
-    pure s!"r={spanOptStr (getBounds p lo hi)} spec_r={specRangeStr (boundsSpec n lo hi)}"
+    pure s!"r={spanOptStr (getBounds p lo hi)} spec_r={specRangeStr (boundsSpec n lo hi)} spec_view={specViewStr p (boundsSpec n lo hi)}"
   | _ => none
 
 /-! ## comparisons -/
@@ -431,13 +451,25 @@ def step (line : String) : String :=
       let (_, outs) := ops.foldl (fun (acc : Bytes × List String) op =>
         let (s', ret) := bufStep acc.1 op
         (s', s!"{bufRetStr ret}|{xhex s'}" :: acc.2)) (p, [])
-      pure ("steps=" ++ ";".intercalate outs.reverse)
+      let (_, souts) := ops.foldl (fun (acc : List Bytes × List String) op =>
+        let (ts', ret) := dequeStep acc.1 op
+        (ts', s!"{bufRetStr ret}|{xhex (ofToks ts')}" :: acc.2)) (tokens p, [])
+      pure ("steps=" ++ ";".intercalate outs.reverse ++ " spec_steps=" ++ ";".intercalate souts.reverse)
     | ["split_front", p] => (parseX p).map fun p =>
-      "r=" ++ someStr ((splitFrontV p).map fun (t, v) => s!"{xhex t},{viewStr v}")
+      let sp := match tokens p with
+        | [] => "none"
+        | t :: _ => s!"some({xhex t},{viewStr (1 + t.length, p.length)})"
+      "r=" ++ someStr ((splitFrontV p).map fun (t, v) => s!"{xhex t},{viewStr v}") ++ " spec_r=" ++ sp
     | ["split_back", p] => (parseX p).map fun p =>
-      "r=" ++ someStr ((splitBackV p).map fun (v, t) => s!"{viewStr v},{xhex t}")
+      let ts := tokens p
+      let sp := match ts.getLast? with
+        | none => "none"
+        | some t => s!"some({viewStr (0, off ts (ts.length - 1))},{xhex t})"
+      "r=" ++ someStr ((splitBackV p).map fun (v, t) => s!"{viewStr v},{xhex t}") ++ " spec_r=" ++ sp
     | ["parent", p] => (parseX p).map fun p =>
-      "r=" ++ someStr ((splitBackV p).map fun (v, _) => viewStr v)
+      let ts := tokens p
+      let sp := if ts.isEmpty then "none" else s!"some({viewStr (0, off ts (ts.length - 1))})"
+      "r=" ++ someStr ((splitBackV p).map fun (v, _) => viewStr v) ++ " spec_r=" ++ sp
     | ["split_at", p, n] => do
       let p ← parseX p
       let n ← parseNatStr n
@@ -449,9 +481,17 @@ def step (line : String) : String :=
       let p ← parseX p
       let q ← parseX q
       let sw := match ptrStartsWith p q with | .ok b => boolStr b | _ => "panic"
+      let tp := tokens p
+      let tq := tokens q
+      let ssw := tq.isPrefixOf tp
+      let sew := (q.isEmpty && p.isEmpty) || (!q.isEmpty && tq.isSuffixOf tp)
+      let ssp := if ssw then s!"some({xhex (ofToks (tp.drop tq.length))})" else "none"
+      let sss := if tq.isSuffixOf tp then s!"some({xhex (ofToks (tp.take (tp.length - tq.length)))})" else "none"
       pure (s!"sw={sw} ew={boolStr (ptrEndsWith p q)} sp={someStr ((ptrStripPrefix p q).map xhex)} " ++
         s!"ss={someStr ((ptrStripSuffix p q).map xhex)} ix={xhex (intersection p q)} " ++
-        s!"ixr={xhex (intersection q p)} cc={xhex (concat p q)}")
+        s!"ixr={xhex (intersection q p)} cc={xhex (concat p q)} " ++
+        s!"spec_sw={boolStr ssw} spec_ew={boolStr sew} spec_sp={ssp} spec_ss={sss} " ++
+        s!"spec_ix={xhex (ofToks (lcp tp tq))} spec_cc={xhex (ofToks (tp ++ tq))}")
     | ["rel3", p, q, r] => do
       let p ← parseX p
       let q ← parseX q
@@ -505,11 +545,15 @@ def step (line : String) : String :=
       let (_, outs) := ops.foldl (fun (acc : Val × List String) op =>
         let (d', ret) := treeStep b acc.1 op
         (d', s!"{ret}|{docStr d'}" :: acc.2)) (d, [])
-      pure ("steps=" ++ ";".intercalate outs.reverse)
+      let (_, souts) := ops.foldl (fun (acc : Val × List String) op =>
+        let (d', ret) := specTreeStep b acc.1 op
+        (d', s!"{ret}|{docStr d'}" :: acc.2)) (d, [])
+      pure ("steps=" ++ ";".intercalate outs.reverse ++ " spec_steps=" ++ ";".intercalate souts.reverse)
     | ["cmp", p, q] => do
       let p ← parseX p
       let q ← parseX q
-      pure s!"eq={aggEq p q} ord={aggOrd p q}"
+      let so := match lexCmp p q with | .lt => "lt" | .eq => "eq" | .gt => "gt"
+      pure s!"eq={aggEq p q} ord={aggOrd p q} spec_eq={boolStr (p == q)} spec_ord={so}"
     | ["conv", p] => (parseX p).map fun p =>
       let badc := (conversions p).filter (fun (_, t) => t != p)
       let conv := if badc.isEmpty then "ok" else "bad:" ++ ",".intercalate (badc.map (·.1))
